@@ -299,6 +299,9 @@ def c15_r1_protocol(ctx, rule="C15.R1"):
     for site in found.get("crlf-merge", []):
         ok1 = has_fact(b, site[0], roles, ("Eq", "13", "rest[idx]"))
         ok2 = has_fact(b, site[0], roles, ("true", "PartialEq::eq(slice::get(rest,Add(1,idx)),*)", None))
+        # the same test as a pattern: `if let Some(&b'\n') = rest.get(idx + 1)`
+        pat_lf = has_fact(b, site[0], roles, *opt_fact("some", "slice::get(rest,Add(1,idx))")) and has_fact(b, site[0], roles, ("in", "try(slice::get(rest,Add(1,idx)))", (10,)))
+        ok2 = ok2 or pat_lf
         ctx.check(ok1, rule, fn, "crlf:cr", "the index skips one more byte only when the terminator is \\r", ctx.site(b, *site))
         ctx.check(ok2, rule, fn, "crlf:lf", "... and the following byte (read with the non-panicking get) equals the constant", ctx.site(b, *site))
     pr = ctx.facts.promoted_of(GET_LINE, 0)
@@ -307,7 +310,8 @@ def c15_r1_protocol(ctx, rule="C15.R1"):
         for bi, si, s, is_term in pr.locations():
             if not is_term and s["k"] == "assign" and s["rv"]["k"] == "use" and s["rv"]["op"]["k"] == "const":
                 ints.append(s["rv"]["op"]["c"].get("int"))
-    ctx.check(ints == [10], rule, fn, "crlf:const", "the byte compared after \\r is \\n", detail=str(ints))
+    ctx.check(ints == [10] or (not ints and bool(found.get("crlf-merge")) and all(has_fact(b, st[0], roles, ("in", "try(slice::get(rest,Add(1,idx)))", (10,))) for st in found.get("crlf-merge", []))),
+              rule, fn, "crlf:const", "the byte compared after \\r is \\n", detail=str(ints))
     # pushed piece = rest[..idx] sampled before the merge
     piece = None
     for l, n in b.var_names.items():
